@@ -104,7 +104,16 @@ fn check_for_boolean_directive(
 
     let mut first_line = true;
 
-    for line in code[..subject_pos + 1].lines().rev()
+    /*
+     * Scan up to and including the first character of the statement, which may be
+     * wider than one byte (e.g. a non-ASCII identifier).
+     */
+    let subject_end = code[subject_pos..]
+        .chars()
+        .next()
+        .map_or(subject_pos, |c| subject_pos + c.len_utf8());
+
+    for line in code[..subject_end].lines().rev()
     {
         if first_line
         {
